@@ -12,6 +12,7 @@ Oracles on the real code: union-find over the real tree_tree, and mujoco's own i
 from __future__ import annotations
 
 import json
+import re
 import types as pytypes
 
 import numpy as np
@@ -20,7 +21,7 @@ import propkit
 import vlib
 
 MANIFEST = {
-  "text": "proof: over the Gallina transcription of island.py (edge marking, explicit-stack flood fill, island map allocation) the adjacency is symmetric and equals the union of the row marks for every task order; flood-fill labels are exactly the connected components of touched trees numbered by smallest tree, fuel ntree^2+ntree suffices and the stack never exceeds ntree^2; dof and constraint island maps are mutually inverse with contiguous per-island ranges for EVERY task order of the counting and allocating launches. The tie to /repo is by correspondence (model evaluated in Coq vs the real kernels on generated inputs), not by proof; float Jacobian entries enter only through the test J==0",
+  "text": "proof: over the Gallina transcription of island.py (edge marking, explicit-stack flood fill, island map allocation) the adjacency is symmetric and equals the union of the row marks for every task order; flood-fill labels are exactly the connected components of touched trees numbered by smallest tree, fuel ntree^2+ntree suffices and the explicit DFS stack never holds more than 1 + (directed off-diagonal edges of tree_tree) <= ntree^2 entries (any scratch array at least that long is never overrun; K5 overruns ntree slots); the allocated stack size and the array aliasing of flood_fill are read off the source by ast on every run (S); dof and constraint island maps are mutually inverse with contiguous per-island ranges for EVERY task order of the counting and allocating launches. The tie to /repo is by correspondence (model evaluated in Coq vs the real kernels on generated inputs), not by proof; float Jacobian entries enter only through the test J==0",
   "note": "trusted: Coq kernel; hand transcription coq/Model/Island.v (checked each run against the real kernels: synthetic graphs through the real host functions, direct _flood_fill launches, real MuJoCo models); a launch is modelled as a sequential fold over an arbitrary task order with indivisible atomics; Warp CPU runs tasks in ascending order",
   "technique": "Rocq proof over a hand-written executable model (C) + in-Coq correspondence cases + differential oracles (union-find, MuJoCo)",
   "engine": "coq",
@@ -348,7 +349,7 @@ def synthetic(res, nlaunch, W, fails):
                       {"kind": "synthetic", "model": jsonable(M), "world": jsonable(wd)}))  # fmt: skip
       err = maps_oracle(world_dict(fd, w), M["nv"], njmax, wd["nefc"], wd["efc_type"])
       if err:
-        fails.append(("C28:island_maps:" + err.split(" ")[0], err, {"kind": "synthetic", "model": jsonable(M), "world": jsonable(wd)}))
+        fails.append(("C28:island_maps:" + re.sub(r"\[\d+\]", "", err.split(" ")[0]), err, {"kind": "synthetic", "model": jsonable(M), "world": jsonable(wd)}))
       if o["nisland"] > 0:
         res.nontrivial(("syn", M["ntree"], o["lab"].tolist().__str__(), wd["nefc"], M["is_sparse"]))
       if k == 0 and w == 0:
@@ -622,11 +623,291 @@ def real_models(res, nmodels, fails):
         fails.append(("C28:mujoco-parity:" + diffs[0].split(" ")[0], "; ".join(diffs[:4]), data))
     err = maps_oracle(wd, mjm.nv, dd.njmax, nefc, dd.efc.type.numpy()[0])
     if err:
-      fails.append(("C28:island_maps:" + err.split(" ")[0], err, data))
+      fails.append(("C28:island_maps:" + re.sub(r"\[\d+\]", "", err.split(" ")[0]), err, data))
     if o["nisland"] > 0:
       res.nontrivial(("real", xml))
     if len([m for m in meta if m[0] == "real"]) == 1:
       res.sample({"kind": "real model", "xml": xml[:500], "tree_island": o["lab"].tolist(), "mujoco_tree_island": mjd.tree_island.tolist(), "nefc": nefc})
+  return lines, meta
+
+
+
+# ----------------------------------------------------------------------------------------
+# (S) facts read off the source of island.flood_fill by ast: stack allocation and aliasing
+# ----------------------------------------------------------------------------------------
+def stack_facts():
+  """Returns dict(expr=source text of the per-world stack size, cap=fn ntree->int, aliased=bool, filled=bool)."""
+  import ast
+  import os
+
+  src = open(os.path.join(vlib.REPO, "mujoco_warp", "_src", "island.py")).read()
+  tree = ast.parse(src)
+  fn = next(n for n in tree.body if isinstance(n, ast.FunctionDef) and n.name == "flood_fill")
+  launch = None
+  for n in ast.walk(fn):
+    if isinstance(n, ast.Call) and isinstance(n.func, ast.Attribute) and n.func.attr == "launch" and n.args and isinstance(n.args[0], ast.Name) and n.args[0].id == "_flood_fill":
+      launch = n
+  kw = {k.arg: k.value for k in launch.keywords}
+  ins, outs = kw["inputs"].elts, kw["outputs"].elts
+  u = ast.unparse
+  # kernel signature: inputs (ntree, tree_tree_in, labels_in, stack_in), outputs (nisland_out, tree_island_out, stack_out)
+  aliased = u(ins[2]) == u(outs[1]) and u(ins[3]) == u(outs[2]) and isinstance(ins[3], ast.Name) and u(ins[0]) == "m.ntree"
+  stack_name = u(ins[3])
+  shape = None
+  for n in ast.walk(fn):
+    if isinstance(n, ast.Assign) and len(n.targets) == 1 and u(n.targets[0]) == stack_name:
+      c = n.value
+      if isinstance(c, ast.Call) and u(c.func) in ("wp.empty", "wp.zeros") and isinstance(c.args[0], ast.Tuple) and len(c.args[0].elts) == 2:
+        shape = c.args[0].elts
+  filled = any(isinstance(n, ast.Call) and u(n.func) == u(ins[2]) + ".fill_" and u(n.args[0]) == "-1" for n in ast.walk(fn))
+  if shape is None or u(shape[0]) != "d.nworld":
+    return {"expr": None, "cap": None, "aliased": aliased, "filled": filled}
+  code = compile(ast.Expression(shape[1]), "<stack>", "eval")
+
+  def cap(ntree):
+    m = pytypes.SimpleNamespace(ntree=ntree)
+    return int(eval(code, {"__builtins__": {}}, {"m": m, "d": pytypes.SimpleNamespace()}))
+
+  return {"expr": u(shape[1]), "cap": cap, "aliased": aliased, "filled": filled}
+
+
+# ----------------------------------------------------------------------------------------
+# (d) dense tree-coupling graphs in a crash-tolerant subprocess with Warp's bounds-checked debug build
+# ----------------------------------------------------------------------------------------
+SLEEP_OPT = '<option sleep_tolerance="0.01" jacobian="{jac}" cone="{cone}"><flag sleep="enable" island="enable"/></option>'
+
+
+def _free_bodies(n, cluster=False):
+  if cluster:  # all spheres overlap pairwise: a contact clique
+    return "".join(
+      f'<body name="b{i}" pos="{0.02 * np.cos(2 * np.pi * i / n):.5f} {0.02 * np.sin(2 * np.pi * i / n):.5f} {0.011 * i:.4f}"><freejoint/><geom type="sphere" size="0.05"/></body>'
+      for i in range(n)
+    )
+  return "".join(f'<body name="b{i}" pos="{0.5 * i} 0 {0.3 * (i % 2)}"><freejoint/><geom type="sphere" size="0.05"/></body>' for i in range(n))
+
+
+def dense_xml_cases(quick):
+  cases = []
+  opt = lambda k: SLEEP_OPT.format(jac=["dense", "sparse"][k % 2], cone=["pyramidal", "elliptic"][(k // 2) % 2])  # noqa: E731
+  k = 0
+  for n in (4, 5, 6, 7) if quick else (4, 5, 6, 7, 8, 9):
+    eq = "connect" if n % 2 else "weld"
+    anchor = ' anchor="0 0 0"' if eq == "connect" else ""
+    eqs = "".join(f'<{eq} body1="b{i}" body2="b{j}"{anchor}/>' for i in range(n) for j in range(i + 1, n))
+    cases.append({"name": f"K{n}-{eq}", "xml": f"<mujoco>{opt(k)}<worldbody>{_free_bodies(n)}</worldbody><equality>{eqs}</equality></mujoco>"})
+    k += 1
+  for a, b in ((2, 3), (3, 3), (3, 4)) if quick else ((2, 3), (3, 3), (3, 4), (4, 4), (2, 6)):
+    n = a + b
+    eqs = "".join(f'<weld body1="b{i}" body2="b{a + j}"/>' for i in range(a) for j in range(b))
+    cases.append({"name": f"K{a},{b}-weld", "xml": f"<mujoco>{opt(k)}<worldbody>{_free_bodies(n)}</worldbody><equality>{eqs}</equality></mujoco>"})
+    k += 1
+  for n in (4, 5, 6) if quick else (4, 5, 6, 7):
+    cases.append({"name": f"contact-cluster{n}", "xml": f"<mujoco>{opt(k)}<worldbody>{_free_bodies(n, cluster=True)}</worldbody></mujoco>"})
+    k += 1
+  # one island holding equality + dof friction + tendon friction + joint limit + tendon limit + contacts,
+  # a second island (tree with friction loss only) and an unconstrained tree; ntree > 1, sleep + island enabled
+  for v in range(2 if quick else 4):
+    cases.append({"name": f"mixed-island{v}", "xml": f"""<mujoco>{opt(v)}<worldbody>
+      <body name="a" pos="0 0 1"><joint name="a1" type="hinge" axis="0 1 0" limited="true" range="0.2 0.5"/><geom size=".05"/>
+        <body name="a2" pos="0 0 .3"><joint name="a2j" type="hinge" axis="1 0 0" frictionloss="0.1"/><geom size=".04"/></body></body>
+      <body name="b" pos="2 0 1"><joint name="b1" type="slide" axis="0 0 1" frictionloss="0.2"/><geom name="gb" size=".05"/></body>
+      <body name="c" pos="2.06 0 1"><freejoint/><geom name="gc" size=".05"/></body>
+      <body name="d" pos="4 0 1"><joint name="d1" type="hinge" axis="0 1 0" frictionloss="0.3"/><geom size=".05"/></body>
+      <body name="e" pos="6 0 1"><joint name="e1" type="slide" axis="1 0 0"/><geom size=".05"/></body>
+      {'<body name="f" pos="8 0 1"><joint name="f1" type="hinge" axis="0 0 1"/><geom size=".05"/></body>' if v % 2 else ''}
+      </worldbody>
+      <tendon><fixed name="t1" frictionloss="0.2" limited="true" range="0.3 0.6"><joint joint="a1" coef="1"/><joint joint="b1" coef="-1"/></fixed>
+      {'<fixed name="t2" frictionloss="0.1"><joint joint="f1" coef="1"/><joint joint="d1" coef="0.5"/></fixed>' if v % 2 else ''}</tendon>
+      <equality><connect body1="c" body2="a2" anchor="0 0 0"/></equality></mujoco>"""})
+  return cases
+
+
+def dense_adj_cases(rng, quick):
+  cases = []
+
+  def add(name, a):
+    cases.append({"name": name, "n": int(a.shape[0]), "adj": a.astype(int).tolist()})
+
+  for n in range(2, 9 if quick else 13):
+    add(f"K{n}", 1 - np.eye(n, dtype=int))
+    add(f"K{n}+self", np.ones((n, n), int))
+  for a, b in ((2, 3), (3, 3), (3, 5), (4, 4), (1, 7)):
+    m = np.zeros((a + b, a + b), int)
+    m[:a, a:] = 1
+    m[a:, :a] = 1
+    add(f"K{a},{b}", m)
+  for _ in range(20 if quick else 200):
+    n = int(rng.integers(4, 9))
+    m = (rng.random((n, n)) < rng.choice([0.6, 0.8, 0.95])).astype(int)
+    add("dense-random", np.maximum(m, m.T))
+  return cases
+
+
+def worker_case(c):
+  """Runs in the child (debug build).  Returns a JSON-able dict."""
+  import mujoco
+  import warp as wp
+
+  import mujoco_warp as mjw
+  from mujoco_warp._src import island
+
+  if "adj" in c:  # the real host function flood_fill (it allocates the stack) on a synthetic adjacency, 2 worlds
+    n = c["n"]
+    a = np.array(c["adj"], np.int32)
+    fm = pytypes.SimpleNamespace(ntree=n)
+    fd = pytypes.SimpleNamespace(nworld=2, tree_island=wp.array(np.full((2, n), 5, np.int32), dtype=int), nisland=wp.array(np.full(2, 9, np.int32), dtype=int))
+    island.flood_fill(fm, fd, wp.array(np.stack([a, a]), dtype=int))
+    wp.synchronize()
+    return {"lab": fd.tree_island.numpy().tolist(), "nisland": fd.nisland.numpy().tolist()}
+  mjm = mujoco.MjModel.from_xml_string(c["xml"])
+  mjd = mujoco.MjData(mjm)
+  mujoco.mj_forward(mjm, mjd)
+  mm = mjw.put_model(mjm)
+  njmax = max(8, 2 * mjd.nefc + 8)
+  dd = mjw.make_data(mjm, nworld=2, nconmax=2 * mjd.ncon + 8, njmax=njmax, njmax_nnz=njmax * mjm.nv)
+  mjw.forward(mm, dd)  # the real path: fwd_position -> island.island, solve -> compute_island_mapping
+  wp.synchronize()
+  fw = {"tree_island": dd.tree_island.numpy()[0].tolist(), "nisland": int(dd.nisland.numpy()[0])}
+  o = real_pipeline(mm, dd)[0]
+  M, D = extract_inputs(mjm, mm, dd, 0)
+  wd = world_dict(dd, 0)
+  nefc = int(dd.nefc.numpy()[0])
+  etype = dd.efc.type.numpy()[0]
+  err = maps_oracle(wd, mjm.nv, dd.njmax, nefc, etype)
+  lab, kk = components_oracle(o["tt"])
+  mj = {"nefc": int(mjd.nefc), "nisland": int(mjd.nisland), "tree_island": mjd.tree_island.tolist(), "dof_island": mjd.dof_island.tolist(),
+        "island_nefc": mjd.island_nefc[: mjd.nisland].tolist(), "island_ne": mjd.island_ne[: mjd.nisland].tolist(),
+        "island_nf": mjd.island_nf[: mjd.nisland].tolist(), "island_nv": mjd.island_nv[: mjd.nisland].tolist()}  # fmt: skip
+  ni = o["nisland"]
+  mine = {"nefc": nefc, "nisland": ni, "tree_island": o["lab"].tolist(), "dof_island": wd["dof_island"].tolist(),
+          "island_nefc": wd["island_nefc"][:ni].tolist(), "island_ne": wd["island_ne"][:ni].tolist(),
+          "island_nf": wd["island_nf"][:ni].tolist(), "island_nv": wd["island_nv"][:ni].tolist()}  # fmt: skip
+  return {"forward": fw, "flat": o["flat"], "M": jsonable(M), "D": jsonable(D), "ntree": int(mjm.ntree), "maps_err": err,
+          "components": [lab, kk], "mj": mj, "mine": mine, "types": sorted(set(int(t) for t in etype[: min(nefc, dd.njmax)]))}  # fmt: skip
+
+
+def worker_main(path, start):
+  import warp as wp
+
+  wp.config.mode = "debug"  # bounds-checked kernels: an out-of-range index aborts the process
+  try:
+    wp.config.log_level = 30
+  except Exception:
+    pass
+  cases = json.load(open(path))
+  for i in range(start, len(cases)):
+    print(f"BEGIN {i}", flush=True)
+    try:
+      r = worker_case(cases[i])
+    except Exception as e:  # noqa
+      r = {"exception": type(e).__name__ + ": " + str(e)[:300]}
+    print(f"DONE {i} " + json.dumps(r), flush=True)
+
+
+def run_debug_worker(cases, timeout=900, max_deaths=3):
+  """Runs all cases in child processes; returns list of (status, payload): status in ok|crash|timeout|skipped.
+
+  After max_deaths child deaths the remaining cases are skipped (every restart costs a Warp import)."""
+  import os
+  import subprocess
+  import sys
+
+  os.makedirs(vlib.BUILD, exist_ok=True)
+  path = os.path.join(vlib.BUILD, f"C28_cases_{os.getpid()}.json")
+  with open(path, "w") as fh:
+    json.dump(cases, fh)
+  out = [None] * len(cases)
+  start = 0
+  deaths = 0
+  while start < len(cases):
+    if deaths >= max_deaths:
+      for i in range(start, len(cases)):
+        out[i] = out[i] or ("skipped", {})
+      break
+    try:
+      p = subprocess.run([sys.executable, os.path.abspath(__file__), "--worker", path, str(start)], capture_output=True, text=True, timeout=timeout)
+      txt, err, rc = p.stdout, p.stderr, p.returncode
+    except subprocess.TimeoutExpired as e:
+      txt = (e.stdout or b"").decode(errors="replace") if isinstance(e.stdout, bytes) else (e.stdout or "")
+      err, rc = "TIMEOUT", 124
+    began = None
+    for line in txt.splitlines():
+      if line.startswith("BEGIN "):
+        began = int(line.split()[1])
+      elif line.startswith("DONE "):
+        _, i, payload = line.split(" ", 2)
+        out[int(i)] = ("ok", json.loads(payload))
+        began = None
+    if began is not None:  # the child died (or hung) inside this case
+      tail = "\n".join(l for l in err.splitlines() if "conda" not in l)[-600:]
+      out[began] = ("timeout" if rc == 124 else "crash", {"returncode": rc, "stderr": tail})
+      start = began + 1
+      deaths += 1
+    else:
+      nxt = max([i for i, o in enumerate(out) if o is not None], default=start - 1) + 1
+      if nxt <= start and rc != 0:  # died before the first BEGIN: machinery problem
+        raise RuntimeError("C28 debug worker failed to start: " + err[-800:])
+      start = max(nxt, start + 1) if rc != 0 else len(cases)
+  try:
+    os.remove(path)
+  except OSError:
+    pass
+  return out
+
+
+def dense_debug(res, facts, fails):
+  quick = res.tier == "quick"
+  rng = np.random.default_rng(vlib.seed() + 2804)
+  xcases, acases = dense_xml_cases(quick), dense_adj_cases(rng, quick)
+  results = run_debug_worker(acases + xcases)
+  lines, meta = [], []
+  cap = facts["cap"]
+  for c, r in zip(acases + xcases, results):
+    res.count()
+    kind = "adj" if "adj" in c else "xml"
+    data = {"kind": "dense-" + kind, "case": c}
+    if r is not None and r[0] == "skipped":
+      continue
+    if r is None or r[0] != "ok":
+      st, info = r if r else ("crash", {})
+      oob = "Assertion" in info.get("stderr", "") or st == "crash"
+      fails.append(("C28:flood_fill:stack-out-of-bounds" if oob else "C28:island:debug-build-" + st,
+                    f"{c['name']}: bounds-checked debug build died inside the island code ({st}, rc {info.get('returncode')}): {info.get('stderr', '')[-200:]}", data))  # fmt: skip
+      continue
+    r = r[1]
+    if "exception" in r:
+      fails.append(("C28:island:exception", f"{c['name']}: {r['exception']}", data))
+      continue
+    res.nontrivial(("dense", c["name"], kind))
+    if kind == "adj":
+      n, a = c["n"], np.array(c["adj"])
+      olab, k = components_oracle(a)
+      for w in range(2):
+        if r["lab"][w] != olab or r["nisland"][w] != k:
+          fails.append(("C28:flood_fill:labels-not-components", f"{c['name']}: labels {r['lab'][w]} nisland {r['nisland'][w]}, components {olab} {k}", data))
+      capn = cap(n) if cap else n * n
+      exp = r["lab"][0] + [r["nisland"][0], 0]
+      lines.append(f"tvz (let r := flood_fill {zz(n)} {zll(a)} (zfill {zz(capn)} {zz(0)}) in lab (fst r) ++ [snd r; if bad (fst r) then {zz(1)} else {zz(0)}]) {zl(exp)}")
+      meta.append(("dense-adj", c["name"], 0))
+    else:
+      M, D = r["M"], r["D"]
+      lines.append(f"tvz (pipeline_flat {emodel_term(M)} {edata_term(D)} {zz(r['ntree'])}) {zl(r['flat'])}")
+      meta.append(("dense-xml", c["name"], 0))
+      if r["forward"]["tree_island"] != r["mine"]["tree_island"] or r["forward"]["nisland"] != r["mine"]["nisland"]:
+        fails.append(("C28:forward:island-differs-from-direct-call", f"{c['name']}: forward {r['forward']} vs island.island {r['mine']['tree_island']}", data))
+      if r["components"][0] != r["mine"]["tree_island"] or r["components"][1] != r["mine"]["nisland"]:
+        fails.append(("C28:flood_fill:labels-not-components", f"{c['name']}: tree_island {r['mine']['tree_island']} vs components {r['components'][0]}", data))
+      if r["maps_err"]:
+        fails.append(("C28:island_maps:" + re.sub(r"\[\d+\]", "", r["maps_err"].split(" ")[0]), f"{c['name']}: {r['maps_err']}", data))
+      if r["mj"]["nefc"] == r["mine"]["nefc"]:
+        diffs = [f"{k} {r['mine'][k]} vs mujoco {r['mj'][k]}" for k in r["mj"] if r["mj"][k] != r["mine"][k]]
+        if diffs:
+          fails.append(("C28:mujoco-parity:" + diffs[0].split(" ")[0], f"{c['name']}: " + "; ".join(diffs[:3]), data))
+      else:
+        res.notes.append(f"dense case {c['name']}: nefc differs from MuJoCo; parity skipped")
+      if c["name"].startswith("mixed") and not {0, 1, 2, 3, 4}.issubset(set(r["types"])):
+        res.notes.append(f"{c['name']}: row kinds present {r['types']}")
+  res.sample({"kind": "dense graphs, debug build subprocess", "cases": [c["name"] for c in acases[:6] + xcases], "stack_expr": facts["expr"]})
   return lines, meta
 
 
@@ -648,15 +929,41 @@ def run(res):
     "cases: (a) synthetic constraint graphs (ntree 1..8, every row kind, static bodies, flex contacts, dense+sparse, nefc>=njmax) through the real "
     "tree_edges/island/_compute_efc_tree/compute_island_mapping, every output array compared exactly with the Coq model; (b) direct _flood_fill "
     "launches on arbitrary adjacency matrices (all symmetric graphs on <=3 trees quick / <=5 thorough, random up to 8 incl. asymmetric) comparing labels, "
-    "nisland and the final stack array; (c) real MuJoCo models; distinct = distinct inputs with at least one island"
+    "nisland and the final stack array; (c) real MuJoCo models; (d) dense coupling graphs (cliques, complete bipartite, contact clusters, one island mixing every row kind) through mjw.forward with sleep+island enabled and through the host flood_fill, in a child process with Warp's bounds-checked debug build; distinct = distinct inputs with at least one island"
   )
   ok, trs, failing = propkit.prove(res, PROPS)
   enum_ok = check_enums(res)
   fails = []
-  l1, m1 = synthetic(res, 30 if quick else 300, 8, fails)
+  # (S) allocation site of the DFS stack and the aliasing the model relies on
+  try:
+    facts = stack_facts()
+  except Exception as e:  # fail closed
+    facts = {"expr": None, "cap": None, "aliased": False, "filled": False, "error": f"{type(e).__name__}: {e}"}
+  cap_ok = facts["cap"] is not None
+  if cap_ok:
+    try:
+      cap_ok = all(facts["cap"](n) >= 1 + n * (n - 1) for n in range(1, 257))
+    except Exception:
+      cap_ok = False
+  res.obligation(
+    "S: island.flood_fill allocates a per-world DFS stack of at least 1 + ntree*(ntree-1) ints for ntree in 1..256 (C28_flood_fill_stack_depth_le_edges applies)",
+    cap_ok, f"stack size expression: {facts['expr']}",
+  )  # fmt: skip
+  alias_ok = bool(facts["aliased"] and facts["filled"])
+  res.obligation("S: flood_fill passes d.tree_island as labels_in and tree_island_out, one scratch array as stack_in and stack_out, m.ntree as ntree, after tree_island.fill_(-1)", alias_ok, "")
+  res.extra["stack_expr"] = facts["expr"]
+  # dense graphs first, in a bounds-checked child: if the island code writes out of bounds there, the phases
+  # that run the same host code in THIS (release-build) process are skipped rather than corrupting its heap
+  l4, m4 = dense_debug(res, facts, fails)
+  oob = any(k == "C28:flood_fill:stack-out-of-bounds" for k, _, _ in fails)
+  if oob:
+    res.notes.append("out-of-bounds access found in the debug-build child: in-process phases (synthetic pipeline, real models) skipped")
+    l1, m1, l3, m3 = [], [], [], []
+  else:
+    l1, m1 = synthetic(res, 30 if quick else 300, 8, fails)
+    l3, m3 = real_models(res, 40 if quick else 400, fails)
   l2, m2 = flood_direct(res, 300 if quick else 3000, 3 if quick else 5, fails)
-  l3, m3 = real_models(res, 40 if quick else 400, fails)
-  lines, meta = l1 + l2 + l3, m1 + m2 + m3
+  lines, meta = l1 + l2 + l3 + l4, m1 + m2 + m3 + m4
   verdicts = tvalid.run_cases("C28", ["Model.Island"], lines, chunk=150)
   bad = [(mt, ln) for mt, ln, v in zip(meta, lines, verdicts) if v != 0]
   per = {}
@@ -664,7 +971,7 @@ def run(res):
     st = per.setdefault(mt[0], [0, 0])
     st[0 if v == 0 else 1] += 1
   res.extra["correspondence"] = {k: {"agree": v[0], "disagree": v[1]} for k, v in per.items()}
-  res.obligation("correspondence Model/Island.v vs real island.py (synthetic pipeline, _flood_fill direct, real models)", not bad, f"{len(bad)} disagreements of {len(lines)}")
+  res.obligation("correspondence Model/Island.v vs real island.py (synthetic pipeline, _flood_fill direct, real models, dense graphs in the debug build)", not bad, f"{len(bad)} disagreements of {len(lines)}")
   seen = set()
   for key, what, data in fails:
     if key in seen:
@@ -673,8 +980,8 @@ def run(res):
     res.violation(key, what, data)
   if bad and not fails:
     res.violation("C28:model-mismatch", "Coq model disagrees with the real island kernels (model no longer tied to code)", [{"case": list(mt), "line": ln[:4000]} for mt, ln in bad[:3]], found_input=False)
-  if (not ok or not enum_ok) and not fails:
-    propkit.broken_proof_violation(res, "C28 theorems over Model/Island.v", failing or "enum constants")
+  if (not ok or not enum_ok or not cap_ok or not alias_ok) and not fails:
+    propkit.broken_proof_violation(res, "C28 theorems over Model/Island.v", failing or ("enum constants" if not enum_ok else f"S-fact flood_fill stack/aliasing (stack expr {facts['expr']})"))
   res.assumptions += [
     "a kernel launch is a sequential fold over some order of its tasks with indivisible atomics (theorems hold for every order)",
     "inputs are well formed: tree ids in [-1,ntree), array lengths as allocated by put_data (out-of-range indices are not modelled)",
@@ -693,6 +1000,12 @@ def replay(res, path):
   if not isinstance(r, dict) or "kind" not in r:
     print("replay: no concrete input in this file (proof/correspondence breakage); re-run the check")
     return 1
+  if r["kind"].startswith("dense-"):
+    out = run_debug_worker([r["case"]])[0]
+    pl = out[1]
+    brief = {k: pl[k] for k in ("maps_err", "mine", "mj", "forward", "lab", "nisland", "returncode", "stderr", "exception") if k in pl}
+    print("debug-build child:", out[0], json.dumps(brief)[:2500])
+    return 0
   if r["kind"] == "flood":
     n = r["n"]
     tt = wp.array(np.array(r["adj"], np.int32)[None], dtype=int)
@@ -720,3 +1033,10 @@ def replay(res, path):
     print("tree_tree", o["tt"].tolist(), "tree_island", o["lab"].tolist(), "nisland", o["nisland"], "components", components_oracle(o["tt"]))
     return 0
   return 1
+
+
+if __name__ == "__main__":
+  import sys
+
+  if len(sys.argv) == 4 and sys.argv[1] == "--worker":
+    worker_main(sys.argv[2], int(sys.argv[3]))
